@@ -220,6 +220,9 @@ def gen_world(rng, nthreads=None, preempt=False, calm=False):
     if preempt:
         # per-access probability in 2^-32 units: ~1 preemption per 2k .. 200k accesses
         w['p_preempt'] = rng.choice([2000, 20000, 200000, 2000000])
+        if rng.random() < 0.45:
+            # conflict-directed: extra preemption chances at locations that two virtual threads have touched
+            w['p_shared'] = rng.choice([16, 160, 1600, 8000])
         if rng.random() < 0.5:
             # bursts: preemptions biased to land shortly after a task body starts
             w['p_burst'] = rng.choice([3000, 12000, 40000]); w['burst_len'] = rng.choice([16, 200, 3000])
